@@ -348,13 +348,23 @@ func genHistory(r *rand.Rand, name string, maxLen int, raw bool) ([]WObj, []stri
 	for i := 0; i < n; i++ {
 		if i > 0 {
 			next := cur.clone()
-			switch r.Intn(10) {
+			switch r.Intn(13) {
 			case 0: // an unrelated new object
 				next = genObj(r, name, raw)
 				labels = append(labels, "replaced")
 			case 1: // identical re-delivery
 				labels = append(labels, "identical")
+			case 10, 11: // a write through the status subresource: only the annotations (the feature gates) change,
+				// the spec stays, the real status strategy does not bump metadata.generation
+				next.Ann = genAnn(r)
+				next.Via = "status"
+				labels = append(labels, "status-write-changes-annotations")
+			case 12: // deleted and created again under the same name before the gateway looked: generation 1 again
+				next = genObj(r, name, raw)
+				next.Via = "recreate"
+				labels = append(labels, "recreated-under-same-name")
 			default:
+				next.Via = ""
 				for k, m := 0, 1+r.Intn(3); k < m; k++ {
 					if r.Intn(3) == 0 {
 						labels = append(labels, mutateFine(r, &next, raw))
